@@ -537,3 +537,11 @@ func ReplayFile(run *report.Run, m Model) {
 	}
 	os.Exit(1)
 }
+
+// Violations returns how many violations this transition has recorded so far.
+func (c *Ctx) Violations() int {
+	if c.res == nil {
+		return 0
+	}
+	return len(c.res.Viol)
+}
